@@ -8,6 +8,9 @@
 //!                                       matches_from_counter -> `id:count,…` sorted by (count desc, id)
 //!                                       + ` ordered|unordered` (was the returned order non-increasing in
 //!                                       the count) ; every returned name/location must be dataset id's own
+//!   cntq <t> <q1;q2;…> <query>          mem RevIndex built with queries = Some(qs) and threshold t (t == 0:
+//!                                       merged query), then counter_for_query of one of the qs (or,
+//!                                       for t == 0, any subset of their union) -> counter
 //!   capi <query> <num> <k> <cont>       C API revindex_search with threshold num/2^k -> `id:scorebits,…`
 //!                                       sorted by (score desc, id) + order token
 use sourmash::ffi::index::revindex::{revindex_search, SourmashRevIndex};
@@ -84,6 +87,33 @@ fn gen(a: &Args) {
                 o.op(&format!("search {} {} {}", kind, qs, t1));
                 let t2 = *r.pick(&[0, 1, maxov, maxov + 1]);
                 o.op(&format!("search {} {} {}", kind, qs, t2));
+            }
+            if qi == 1 {
+                // index restricted to a set of queries
+                let nqs = r.range(1, 3);
+                let mut qs: Vec<Vec<u64>> = (0..nqs)
+                    .map(|_| {
+                        let num = r.range(1, 7);
+                        let mut v = subset(&mut r, &u, num, 8);
+                        if v.is_empty() {
+                            v.push(*r.pick(&u));
+                        }
+                        v
+                    })
+                    .collect();
+                if !q.is_empty() && r.chance(1, 2) {
+                    qs.push(q.clone());
+                }
+                let t = *r.pick(&[0u64, 0, 1, 3]);
+                let probe = if t == 0 && r.chance(1, 2) {
+                    let mut all: Vec<u64> = qs.iter().flatten().copied().filter(|_| r.chance(2, 3)).collect();
+                    all.sort_unstable();
+                    all.dedup();
+                    all
+                } else {
+                    qs[r.below(qs.len() as u64) as usize].clone()
+                };
+                o.op(&format!("cntq {} {} {}", t, show_coll(&qs), show_nats(probe.iter().copied())));
             }
             if !q.is_empty() {
                 let k = r.range(0, 4);
@@ -186,6 +216,13 @@ fn step(st: &mut St, ws: &[&str]) -> String {
                 }
             };
             show_matches(&ms, |n| n as f64)
+        }
+        "cntq" => {
+            let t: usize = ws[1].parse().unwrap();
+            let qs: Vec<_> = ws[2].split(';').map(|q| make_mh(&parse_nats(q), None, 1)).collect();
+            let sel = Selection::builder().ksize(KSIZE).scaled(1).build();
+            let idx = mem_revindex::RevIndex::new_with_sigs(sigs_of(&st.coll), &sel, t, Some(&qs)).unwrap();
+            show_counter(idx.counter_for_query(&make_mh(&parse_nats(ws[3]), None, 1)).iter())
         }
         "capi" => {
             let qsig = make_sig("query", &parse_nats(ws[1]), None, 1);
